@@ -163,7 +163,7 @@ def py_scalar(np_, dt, v):
 
 def noncontig(a, k):
     """the same logical array (shape, values, dtype) in another MEMORY layout: 0 C-contiguous, 1 Fortran order,
-    2 a strided view (every second row of a larger buffer), 3 a swapaxes view of a contiguous buffer"""
+    2 a strided view (every second row of a larger buffer), 3 a swapaxes(0, 1) view of a contiguous buffer"""
     a = np.asarray(a)
     if a.ndim == 0 or a.size == 0 or k % 4 == 0:
         return a
@@ -171,7 +171,7 @@ def noncontig(a, k):
     if k == 1 and a.ndim >= 2:
         return np.asfortranarray(a)
     if k == 3 and a.ndim >= 2:
-        return np.ascontiguousarray(a.swapaxes(0, a.ndim - 1)).swapaxes(0, a.ndim - 1)
+        return np.ascontiguousarray(a.swapaxes(0, 1)).swapaxes(0, 1)
     big = np.empty((2 * a.shape[0],) + a.shape[1:], dtype=a.dtype)
     big[::2] = a
     big[1::2] = a[::-1]
